@@ -316,6 +316,13 @@ class FznEvaluator(Evaluator):
         raise Undecided("index of " + show(e)[:60])
 
     def ev(self, e, env):
+        bind = getattr(self, "bind", None)
+        if bind:
+            k_ = show(e)
+            if k_ in bind:
+                return bind[k_]
+            if e.k == "proj" and e.b and all("deref" in pr for pr in e.b) and show(e.a) in bind:
+                return bind[show(e.a)]
         if e.k == "proj" and e.b and any("downcast" in pr and pr["downcast"] == "Continue" for pr in e.b):
             inner = peel(e.a, calls=None)
             if inner.k == "call" and inner.a.name == "branch":
@@ -390,6 +397,57 @@ BOOL_SPECS = {
 }
 
 
+def vec_from_pushes(f, ev_, vec_expr):
+    """contents of a vector that is built by `for x in L { v.push(g(x)) }` loops (one push per loop),
+    as the concatenation, in program order, of map(g, L) — read off the path summary that enters
+    every loop once; anything else done to the vector makes the rule give up"""
+    vec_expr = peel(vec_expr, calls=None)
+    if not (vec_expr.k == "call" and vec_expr.a.name in ("new", "with_capacity", "default")):
+        return None
+    ctor = vec_expr.a
+    ps = [p for p in SymExec(f, max_paths=2000, max_visits=2).run() if not p.diverged and p.ret is not None
+          and not any(c.name == "from_residual" for c in p.ret.calls())]
+    if not ps:
+        return None
+
+    def pushes_of(p):
+        out = []
+        for c, a, r in p.calls:
+            if c.name in ("push", "extend", "insert", "retain", "remove", "truncate", "clear", "pop", "append") and a:
+                tgt = peel(a[0], calls=None)
+                if tgt.k == "call" and tgt.a is ctor:
+                    out.append((c, a))
+        return out
+    p = max(ps, key=lambda q: len(pushes_of(q)))
+    out = []
+    for c, a in pushes_of(p):
+        if c.name != "push":
+            raise Undecided("the vector is modified with `%s`" % c.name)
+        val = a[1]
+        # the iteration variable: `next(&mut into_iter(L))@Some.0`
+        it = None
+        for y in val.walk():
+            if y.k == "proj" and y.b and any(pr.get("downcast") == "Some" for pr in y.b):
+                inner = peel(y.a, calls=None)
+                if inner.k == "call" and inner.a.name == "next":
+                    it = (y, inner)
+        if it is None:
+            out.append(ev_.ev(val, {}))
+            continue
+        y, nxt = it
+        src = peel(nxt.b[0], calls=None)
+        while src.k == "call" and src.a.name in ("into_iter", "iter", "copied", "cloned") and src.b:
+            src = peel(src.b[0], calls=None)
+        elems = ev_.as_list(ev_.ev(src, {}))
+        for el in elems:
+            ev_.bind = {show(y): el}
+            try:
+                out.append(ev_.ev(val, {}))
+            finally:
+                ev_.bind = None
+    return ("list", out)
+
+
 def boolform(led, rid, ctx):
     """the Boolean builtins post constraints with the truth table of the FlatZinc builtin"""
     import itertools
@@ -414,7 +472,9 @@ def boolform(led, rid, ctx):
                 elif c.name == "reify" and len(args) >= 3:
                     effects.append(("iff", ev_.ev(args[0], {}), ev_.ev(args[2], {})))
                 elif c.name == "add_clause" and len(args) >= 2:
-                    effects.append(("holds", ("bool", "clause", ev_.as_list(ev_.ev(args[1], {}))), None))
+                    built = vec_from_pushes(f, ev_, args[1])
+                    lits = built if built is not None else ev_.ev(args[1], {})
+                    effects.append(("holds", ("bool", "clause", ev_.as_list(lits)), None))
             if not effects:
                 raise Undecided("posts nothing")
             vars_ = set()
